@@ -67,6 +67,17 @@ def out_matches(cmd, obs, lab):
             diffs.append('skipped-directory reports: observed %s, specification %s' % (sorted(obs['diag']), sorted(lab['diag'])))
         if obs['unparsed']:
             diffs.append('unparsed output records: %r' % obs['unparsed'][:3])
+        if obs.get('size'):
+            # --size: every entry that has a payload (o > 0) is listed at its location; entries without payload may be
+            loc = lambda l: json.dumps({k: l[k] for k in ('r', 'd', 'n')}, sort_keys=True)
+            want = sorted(loc(l) for l in lab['lines'] if l.get('o', 1) > 0)
+            may = sorted(loc(l) for l in lab['lines'])
+            got = sorted(loc(l) for l in obs['size']['locs'])
+            import collections
+            cg, cw, cm = collections.Counter(got), collections.Counter(want), collections.Counter(may)
+            if (cw - cg) or (cg - cm) or obs['size']['exit'] != 'ok':
+                diffs.append('trash-list --size: exit %s, locations listed %s, entries with payload %s | %s' % (
+                    obs['size']['exit'], got, want, obs['size']['stderr'][-200:]))
     elif cmd == 'listdirs':
         for k in ('found', 'notsticky', 'symlink', 'volumes'):
             if sorted(obs[k]) != sorted(lab[k]):
